@@ -185,11 +185,17 @@ def run_sched(ctx, pid, profiles, n_quick, n_thorough, extra=None, monitor_profi
             for f in fs:
                 f["no_shrink"] = True
             failures += fs
+    probe_log = []
     if probes:
         impl_p = corr.run_impl(binary, probes, pid + "_probes")
         impl.update(impl_p)
         for s in probes:
             f = probe_verdict(s, impl_p.get(s["name"], []), [impl.get("%s_serial%d" % (s["name"], n), []) for n in range(len(s["serial"]))])
+            rp = impl_p.get(s["name"], [])
+            eb = s.get("expect_blocked")
+            probe_log.append(dict(name=s["name"], stops=[r["ret"][1] for r in rp if r["ret"] and r["ret"][0] == 7 and len(r["ret"]) > 1],
+                                  conflicting_action_blocked=(bool(rp[eb]["ret"]) and rp[eb]["ret"][0] == 8) if eb is not None and len(rp) > eb else None,
+                                  verdict="ok" if not f else f["signature"]))
             if f and f.get("divergence"):
                 divergences.append(dict(kind="probe", component=s.get("component", "locks"), field="lock scope", detail=f,
                                         schedule=dict(name=s["name"], cfg=s["cfg"], events=s["events"]), what=f["what"]))
@@ -213,7 +219,7 @@ def run_sched(ctx, pid, profiles, n_quick, n_thorough, extra=None, monitor_profi
                     "full state compared after every event; a schedule is non-trivial if it has an accepted put and at least one eviction, sweep removal, upsert, delete or shutdown; "
                     "distinct = distinct event lists" % (len(corpus), len(scheds), ",".join(profiles)),
                samples=[sched_sample(s) for s in scheds[:2]], traces=len(allsched),
-               extra=dict(distribution=distribution(allsched, impl), impl_only_search_schedules=searched))
+               extra=dict(distribution=distribution(allsched, impl), impl_only_search_schedules=searched, atomicity_probes=probe_log))
     if extra:
         extra(ctx, res, allsched, impl)
     return res
